@@ -9,6 +9,10 @@ results (used instance / fresh instance / repeated call) are equal.  A ~ / ^ is 
 it (through parentheses and field wrappers) whether or not a field in between gets a nested clause; the builder
 drops it in that case: known finding F22, recognised by `modifier_over_nested` (the Python mirror of
 EsSpec.modifier_over_nested; the two are compared on every generated case).
+The clause KIND TABLE (coq/model/EsKindTable.v, written from the documentation; coq/props/C06k.v proves that the
+model's rendering of one leaf IS that table) is additionally evaluated against the implementation's leaf clauses on
+every judged case (chk4).  Second known finding F27: luqum finds wildcards with a regular expression that reads an
+escaped * / ? after an escaped backslash (x, three backslashes, *) as a wildcard; recognised by `escaped_wildcard_misread`.
 """
 import json
 import re
@@ -30,6 +34,15 @@ def has_wildcard(v):
         else:
             i += 1
     return False
+
+
+# the pattern of luqum.tree.Term.WILDCARDS_PATTERN, COPIED (the recogniser of a finding reads the input only)
+WILDCARDS_PATTERN_COPY = re.compile(r"((?<=[^\\])[?*]|\\\\[?*]|^[?*])")
+
+
+def misread(v):
+    """the pattern finds a wildcard where there is no unescaped * or ? (an odd run of >= 3 backslashes before it)"""
+    return bool(WILDCARDS_PATTERN_COPY.search(v)) != has_wildcard(v)
 
 
 def get_name(n):
@@ -325,6 +338,38 @@ def f22_corpus(T, parser):
             ({}, [parser.parse(q) for q in lost[:4] + kept[:4]])]
 
 
+def escaped_wildcard_misread(T, cfg, tree):
+    """Known finding F27 (reads the input only; `tree` must be grammar_like): some word — or phrase on a
+    not-analysed field, whose text between the quotes the builder treats as a word — in which luqum's wildcard
+    pattern finds a wildcard although every * and ? is escaped: an odd run of >= 3 backslashes before it, as in
+    x\\\\\\* (x, an escaped backslash, an escaped *).  The Coq guard terms_in_table (no run of three backslashes
+    in such a text) is false on every such input; the two are compared on every judged case."""
+    r = Expect(T, cfg).go(tree, None, None, None)
+    specs = [r[1]] if r[0] in ("leaf", "wrapped") else r[1]
+    return any(s["kind"] == "word" and misread(s["q"]) for s in specs)
+
+
+def has_backslash_run(T, cfg, tree):
+    """some word-like term (word, or phrase on a not-analysed field) has a run of three backslashes"""
+    r = Expect(T, cfg).go(tree, None, None, None)
+    specs = [r[1]] if r[0] in ("leaf", "wrapped") else r[1]
+    return any(s["kind"] == "word" and "\\" * 3 in s["q"] for s in specs)
+
+
+F27_CONFIG = {"not_analyzed_fields": ["n"], "field_options": {"f": {"analyzer": "std", "analyze_wildcard": False},
+                                                              "n": {"boost": 2}}}
+
+
+def f27_corpus(parser):
+    """the witnesses of F27 and their neighbours; (configuration, trees)"""
+    b = "\\"
+    misread_q = ["f:x" + b * 3 + "*", "x" + b * 3 + "?", "n:y" + b * 5 + "*", 'n:"a' + b * 3 + '*"', "f:" + b * 3 + "*^2",
+                 "f:x" + b * 3 + "* AND n:z"]
+    fine_q = ["f:x" + b + "*", "f:x" + b * 2 + "*", "f:x" + b * 4 + "*", "n:x" + b * 2 + "?", "f:a*" + b * 3 + "*",
+              'f:"a' + b * 3 + '*"', "f:x" + b * 3 + "y", "n:" + b + "*"]
+    return [(F27_CONFIG, [parser.parse(q) for q in misread_q + fine_q])]
+
+
 def grammar_like(T, t):
     """E.supported(strict=True), except that a ~ may also stand above parentheses / field wrappers around its word
     (Fuzzy) or phrase (Proximity): the hand-built shapes of F22 (observation F19 of C05) are judged too"""
@@ -352,8 +397,6 @@ def judged(T, cfg, tree):
     if not grammar_like(T, tree):
         return False
     for _, n in gentree.all_nodes(tree):
-        if isinstance(n, T.Term) and "\\\\\\" in n.value:
-            return False           # runs of >= 3 backslashes: escaping of the escape, not judged
         if isinstance(n, T.Boost) and not n.force == n.force:
             return False
     for o in (cfg.get("field_options") or {}).values():
@@ -373,7 +416,8 @@ def correspond(model_ok, res):
     hist = [parser.parse(q) for q in ['"a b"~2', 'f:[1 TO 5]', 'x', '"c d"', 'f:{2 TO *]', '"e f"~3', 'y AND "g h"',
                                       'f:[* TO 3}', 'z OR "i j"~1', 'x']]
     f22 = [(c, ts, "F22-witnesses") for c, ts in f22_corpus(T, parser)]
-    sessions = f22 + [({}, f16[:10], "F16-regression"), ({"default_operator": "must"}, f16[10:] + f16[:2], "F16-regression"),
+    f27 = [(c, ts, "F27-witnesses") for c, ts in f27_corpus(parser)]
+    sessions = f22 + f27 + [({}, f16[:10], "F16-regression"), ({"default_operator": "must"}, f16[10:] + f16[:2], "F16-regression"),
                 ({"nested_fields": {"f": ["g"]}, "not_analyzed_fields": ["f.g"]}, f16[5:], "F16-regression"),
                 ({}, hist, "history"),
                 ({"not_analyzed_fields": ["text", "f"]}, hist, "history")] + E.builder_sessions(r, T, n)
@@ -382,8 +426,10 @@ def correspond(model_ok, res):
     sessions += E.escaped_sessions(r, T, n // 4) + E.homonym_sessions(r, T, n // 2)
     stats = {"judged": 0, "leaf_clauses": 0, "named_same_class_operand": 0, "kinds": {}, "spec_cases": 0,
              "modifier_over_nested": 0, "modifier_over_nested_judged": 0, "F22_oracle_failures": 0,
-             "F22_spec_failures": 0, "modifier_over_nested_but_clauses_as_expected": 0, "predicate_cases": 0}
-    spec_cases, spec_payloads, spec_f22 = [], [], []
+             "F22_spec_failures": 0, "modifier_over_nested_but_clauses_as_expected": 0, "predicate_cases": 0,
+             "escaped_wildcard_misread_judged": 0, "F27_oracle_failures": 0,
+             "table_cases": 0, "table_cases_in_domain": 0}
+    spec_cases, spec_payloads, spec_f22, spec_f27 = [], [], [], []
     pred_cases, pred_payloads = [], []
 
     def oracle(cfg, tree, outcome, info):
@@ -413,6 +459,8 @@ def correspond(model_ok, res):
             return out
         stats["judged"] += 1
         stats["modifier_over_nested_judged"] += in_f22
+        in_f27 = escaped_wildcard_misread(T, cfg, tree)
+        stats["escaped_wildcard_misread_judged"] += in_f27
         want = sorted(canon(c) for c in Expect(T, cfg).clauses(tree))
         got = sorted(canon(c) for c in json_leaves(outcome[1]))
         stats["leaf_clauses"] += len(got)
@@ -429,13 +477,18 @@ def correspond(model_ok, res):
                 lib.g_list([E.g_json(c, E.decimals_of(T, tree)) for c in json_leaves(outcome[1])])))
             spec_payloads.append(payload)
             spec_f22.append(in_f22)
+            spec_f27.append(in_f27)
+            # measured only: the tree is inside the domain of the table theorem (no word-like text with a run of
+            # three backslashes); Coq decides with EsKindTable.terms_in_table
+            stats["table_cases_in_domain"] += not has_backslash_run(T, cfg, tree)
         except lib.Unmodelled:
             pass
         if want != got:
-            # the only known finding of C06: a ~ / ^ above a field that gets a nested clause (F22); every other
-            # failure of the oracle is a violation
-            fid = "F22" if in_f22 else None
+            # the known findings of C06: a ~ / ^ above a field that gets a nested clause (F22), an escaped wildcard
+            # read as a wildcard (F27); every other failure of the oracle is a violation
+            fid = "F22" if in_f22 else ("F27" if in_f27 else None)
             stats["F22_oracle_failures"] += in_f22
+            stats["F27_oracle_failures"] += (in_f27 and not in_f22)
             out.append((dict(payload, why="leaf clauses differ from the predicted ones",
                              expected=want[:20], got=got[:20]), fid))
         elif in_f22:
@@ -472,6 +525,39 @@ Definition chk2 (c : es_config * item * list json) : bool :=
                                               "implementation's leaf clauses"))
         stats["spec_cases"] = len(spec_cases)
         res.cases += len(spec_cases)
+    if model_ok and spec_cases and not res.model_error:
+        # the documented kind table (EsKindTable.table_clauses) against the implementation's leaf clauses, on every
+        # judged tree inside the domain of the table theorem; and: the recogniser of F27 implies that the tree is
+        # outside that domain (+ a canary: a corrupted clause list must be reported)
+        defs4 = defs + """
+Definition chk4 (c : es_config * item * list json * bool) : bool :=
+  let '(cfg, t, ls, misread) := c in
+  (negb misread || negb (terms_in_table cfg t)) &&
+  (negb (terms_in_table cfg t) || mseq (table_clauses cfg t) ls).
+Definition in_domain (c : es_config * item * list json * bool) : bool :=
+  let '(cfg, t, _, _) := c in terms_in_table cfg t."""
+        cases4 = ["(%s, %s)" % (c[1:-1], lib.g_bool(m)) for c, m in zip(spec_cases, spec_f27)]
+        wrong = E.g_json({"term": {"text": {"value": "x"}}})
+        canary4 = "(%s, %s, [%s], false)" % (E.g_config({}), lib.g_item(parser.parse("x")), wrong)
+        try:
+            bad4 = lib.eval_cases("C06t", E.IMPORTS + " EsSpec EsKindTable", defs4, cases4 + [canary4], "chk4", shard=40)
+        except Exception as e:  # noqa
+            res.model_error = str(e)[-3000:]
+            bad4 = [len(cases4)]
+        if len(cases4) not in bad4:
+            res.model_error = "canary of the kind-table comparison not reported: the comparison is vacuous"
+        for i in bad4:
+            if i >= len(cases4):
+                continue
+            if spec_f22[i]:
+                res.failures.append((dict(spec_payloads[i], why="EsKindTable.table_clauses differs from the "
+                                          "implementation's leaf clauses (modifier above a nested field)"), "F22"))
+            else:
+                res.disagreements.append(dict(spec_payloads[i], why="EsKindTable.table_clauses differs from the "
+                                              "implementation's leaf clauses inside the table's domain, or the "
+                                              "recogniser of F27 accepts a tree inside that domain"))
+        stats["table_cases"] = len(cases4)
+        res.cases += len(cases4)
     if model_ok and pred_cases and not res.model_error:
         # the Python recogniser of F22 == EsSpec.modifier_over_nested on every generated case (+ a canary: a
         # deliberately wrong verdict on the witness must be reported)
@@ -517,6 +603,12 @@ SPEC = {
                  "C06_plain_json", "C06_calls_independent", "C06_class_defaults_untouched",
                  "C06_tie_e_consts_immutable", "C06_tie_builder_eclasses_standard", "C06_tie_methods_known",
                  "C06_tie_ztq"],
+    # the clause kind table as a theorem (model/EsKindTable.v: written from the documentation; proofs/EsKindProofs.v)
+    "more": [{"module": "C06k", "target": "props/C06k.vo",
+              "theorems": ["C06_kind_table", "C06_kind_table_items", "C06_kind_table_unguarded_refuted",
+                           "C06_wildcard_reading", "C06_text_normalisation", "C06_merge_semantics",
+                           "C06_domain_covers", "C06_leaves_by_table", "C06_leaves_by_table_plain",
+                           "C06_eleaves_by_table", "C06_leaves_by_table_guard_needed"]}],
     "correspond": correspond,
     "statement": "multiset of the leaf clauses of the generated query = clauses of the leaves expected from the "
                  "tree (field, value, kind, modifiers, options, zero_terms_query, _name), the expectation being "
@@ -528,7 +620,25 @@ SPEC = {
                  "C06_modifier_guard_needed); the names alone against 'own name, else nearest named enclosing "
                  "element' in full (C06_leaf_names); every produced JSON is plain data (proved in full); results "
                  "independent of earlier calls (pure model + generated immutability facts + call-sequence "
-                 "correspondence); the zero_terms_query constants are pinned by C06_tie_ztq",
+                 "correspondence); the zero_terms_query constants are pinned by C06_tie_ztq.  "
+                 "THE CLAUSE KIND TABLE IS A THEOREM (C06k.v): EsKindTable.spec_clause, a declarative table written from "
+                 "the property text and luqum's documentation on DESCRIBED TERMS (the word / phrase / range as written, "
+                 "its field, the ~ / ^ above it, 'direct item of a conjunction', its name) — word on a not-analysed "
+                 "field -> term, with an unescaped * or ? -> wildcard / query_string, lone * -> exists, under ~ -> "
+                 "fuzzy, analysed -> match (match_phrase with match_word_as_phrase) or the match_type / type option; "
+                 "phrase -> match_phrase with the text between the quotes, blanks collapsed, slop from ~ (a word-like "
+                 "term on a not-analysed field); range -> gte/gt/lte/lt by bracket kind, * unbounded; generated "
+                 "parameters overwrite the options of the same name, the other options stay, except analyze_wildcard / "
+                 "allow_leading_wildcard which the options override; zero_terms_query 'all' exactly for a direct "
+                 "item of a conjunction — equals the model's rendering EsBuild.leaf_json of the E-item the builder makes "
+                 "for the term, for every well-formed configuration and every term whose text has no run of three "
+                 "backslashes (C06_kind_table); REFUTED without that guard (C06_kind_table_unguarded_refuted, F27: "
+                 "the word x\\\\\\* — every wildcard escaped — becomes a query_string); C06_leaves_by_table: "
+                 "C06_leaves_partial restated with the table (Permutation (leaves j) (map spec_clause (expected_terms "
+                 "cfg t)), no function of the model in the conclusion); C06_domain_covers: the E-items of every tree "
+                 "are those of its described terms; C06_wildcard_reading / C06_text_normalisation / "
+                 "C06_merge_semantics: the table's own readings (escape-aware wildcard scan, s[1:-1], blank collapsing, "
+                 "bound texts, overwrite / unless-given) against the model's",
     "trusted_base": [
         "Coq 8.16.1 kernel (vm_compute for witnesses and correspondence; no native_compute)",
         "no axioms (Print Assumptions: closed under the global context)",
@@ -537,15 +647,25 @@ SPEC = {
         "every run, including call sequences on one builder instance and on fresh ones; class-level constants "
         "of luqum/elasticsearch/tree.py come from the generated coq/gen/GenEs.v (tie facts "
         "gen_e_consts_immutable, gen_builder_eclasses_standard)",
-        "the rendering of one expected leaf record to its clause is EsBuild.leaf_json (the documented table as "
-        "a function); it is additionally checked on the implementation by the independent Python oracle of "
-        "harness/c06.py",
+        "the rendering of one leaf to its clause: EsBuild.leaf_json is PROVED equal to the declarative table "
+        "EsKindTable.spec_clause (C06k.v); what stays trusted is that the table says what the documentation says "
+        "(read coq/model/EsKindTable.v: header table and ~150 lines of definitions) and the tie of the model to the "
+        "code: the differential correspondence, the independent Python oracle of harness/c06.py, and the direct "
+        "evaluation of the table against the implementation's leaf clauses on every judged case (chk4); the JSON "
+        "literals of the row Examples of C06k.v were produced by the real builder",
     ],
     "assumptions": [
         "supported trees: the listed constructs, operations with >= 2 operands, range bounds word / phrase "
         "possibly under -; the Python oracle judges grammar shapes (fuzzy on a word, proximity on a phrase)",
         "no match_type / type field option is 'bool' or 'nested' (options_not_reserved)",
         "floats are not modelled: boost / fuzziness / slop are compared as the exact decimals handed to float()",
+        "kind table: proved for texts without a run of three backslashes (terms_in_table / texts_plain); outside, "
+        "luqum's wildcard pattern can read an escaped * or ? as a wildcard (F27); rows the documentation leaves "
+        "open are transcribed from the unchanged code and marked OBSERVED in EsKindTable.v: `f:*` renders only "
+        "field and _name (options and ^ dropped), a phrase on a not-analysed field is a word-like term (so "
+        "`n:\"x*\"` is a wildcard clause and `n:\"*\"` an exists clause), a wildcard wins over ~ (the wildcard / "
+        "query_string clause then carries `fuzziness`), hand-built shapes (Fuzzy on a phrase or range, Proximity on a "
+        "word) follow the setters",
         "history clause: the model is a pure function of (configuration, tree); what ties this to the code is the "
         "call-sequence correspondence and the (hard-coded) fact that the class-level defaults are tuples / str",
         "range bounds keep the bound's text as it is (a phrase bound keeps its quotes); a boost / fuzziness / "
